@@ -352,7 +352,10 @@ func vfH_C12_connectreply() {
 			up.Body = &vfFailingBody{data: full[:k], err: io.ErrUnexpectedEOF}
 		}
 		u, _ := url.Parse("http://proxy.internal:3128")
-		return nil, martian.OnProxyConnectResponse(req.Context(), u, req, up)
+		// as net/http calls the hook: with the transport's own CONNECT request
+		connectReq := &http.Request{Method: "CONNECT", URL: &url.URL{Opaque: "example.com:443"}, Host: "example.com:443", Header: http.Header{}}
+		up.Request = connectReq
+		return nil, martian.OnProxyConnectResponse(req.Context(), u, connectReq, up)
 	}
 	conn := martian.NewVfConn([]byte("GET https://example.com/a HTTP/1.1\r\nHost: example.com\r\n\r\n"))
 	martian.VfServeConn(hp.proxy, conn)
@@ -458,4 +461,35 @@ func vfH_C12_oddreply() {
 	vfrt.Assert(res.StatusCode == code, "oddreply/status-code-kept")
 	_, berr := io.ReadAll(res.Body)
 	vfrt.Assert(berr == nil, "oddreply/response-complete")
+}
+
+//vf:assume C12-unsolicited-101: the origin answers an ordinary GET (no upgrade requested) with a bare "101 Switching Protocols" - no Upgrade field, no Connection: Upgrade - which net/http hands over as a final response without a writable body; with or without another field; the proxy must not crash and the client, which was sent no response head yet, gets one well-formed 5xx response
+
+//vf:harness property=C12 nopanic reach=unsolicited-101 steps=8000000
+func vfH_C12_unsolicited101() {
+	cfg := HTTPProxyConfig{}
+	cfg.Name = "fw"
+	cfg.ProxyLocalhost = AllowProxyLocalhost
+	hp := vfNewHTTPProxy(cfg)
+	rt := hp.transport.(*vfRoundTripper)
+	withField := vfrt.Choice("with-another-field", 2) == 1
+	rt.respond = func(req *http.Request, n int) (*http.Response, error) {
+		h := http.Header{}
+		if withField {
+			h.Set("X-Origin", "1")
+		}
+		return &http.Response{StatusCode: 101, Status: "101 Switching Protocols", Proto: "HTTP/1.1", ProtoMajor: 1, ProtoMinor: 1, Header: h, Request: req, Body: http.NoBody}, nil
+	}
+	vfrt.Reach("unsolicited-101")
+	conn := martian.NewVfConn([]byte("GET http://example.com/a HTTP/1.1\r\nHost: example.com\r\n\r\n"))
+	martian.VfServeConn(hp.proxy, conn)
+	vfrt.Assert(conn.Closed >= 1, "unsolicited-101/connection-finished")
+	res, perr := http.ReadResponse(bufio.NewReader(bytes.NewReader(conn.Out.Bytes())), &http.Request{Method: "GET"})
+	vfrt.Assert(perr == nil, "unsolicited-101/client-gets-a-well-formed-error-response")
+	if perr != nil {
+		return
+	}
+	vfrt.Assert(res.StatusCode >= 500 && res.StatusCode <= 599 && res.Header.Get("X-Forwarder-Error") != "", "unsolicited-101/5xx-with-x-forwarder-error")
+	_, berr := io.ReadAll(res.Body)
+	vfrt.Assert(berr == nil, "unsolicited-101/response-complete")
 }
